@@ -821,8 +821,18 @@ func (g *Gen) stmt(d int, last bool) N {
 		g.inLoop--
 		g.pop()
 		g.pop()
+		inc := N{"k": "postfix", "n": iv, "op": "++"}
+		switch g.R.Intn(6) {
+		case 0:
+			// the post clause is an expression (its value must be discarded); the counter advances in the body
+			post := []N{Id(iv), Call(Id("len"), List(Id(iv))), Call(Id("print"), Int(300+g.R.Intn(9)))}[g.R.Intn(3)]
+			return N{"k": "for", "init": []any{Var(iv, Int(0))}, "hascond": true,
+				"cond": Bin("<", Id(iv), Int(lim)), "post": []any{ExprStmt(post)}, "body": append([]any{inc}, body...)}
+		case 1:
+			inc = N{"k": "assign", "n": iv, "op": "+=", "e": Int(1)}
+		}
 		return N{"k": "for", "init": []any{Var(iv, Int(0))}, "hascond": true,
-			"cond": Bin("<", Id(iv), Int(lim)), "post": []any{N{"k": "postfix", "n": iv, "op": "++"}}, "body": body}
+			"cond": Bin("<", Id(iv), Int(lim)), "post": []any{inc}, "body": body}
 	case c == 13 && d > 0:
 		// range / for-in over a container bound to a variable first
 		cv := g.fresh("c")
